@@ -22,17 +22,36 @@ def build_cases(chk):
     cases += [scen_log.servlet_case(rng, a, b) for a, b in sv]
     pv = [(5, 100), (400, 1000)] if chk.tier == 'quick' else [(0, 10), (5, 100), (400, 1000), (2000, 100)] * 3
     cases += [scen_log.pool_case(rng, a, b) for a, b in pv]
+    # stalled parent (the child needs the stall time to flush after it has delivered its result) and bursts
+    # (the child gets tens of thousands of records ahead of the parent); these run longest, so they go first,
+    # one per worker chunk (core.Pool chunks up to 16 consecutive cases)
+    if chk.tier == 'quick':
+        long = [scen_log.stall_case(rng, 'ret', 7.0, at=0), scen_log.stall_case(rng, 'raise', 7.0, n=4000, size=150, at=40),
+                scen_log.stall_case(rng, 'exit3', 7.0, at=3),
+                scen_log.burst_case(rng, 'ret', 16000), scen_log.burst_case(rng, 'raise', 13000)]
+    else:
+        long = [scen_log.burst_case(rng, e, 150000, secs=3.0) for e in ('ret', 'exit3')]
+        long += [scen_log.burst_case(rng, e, n) for e in ('ret', 'raise', 'exitstr') for n in (12000, 30000)]
+        long += [scen_log.stall_case(rng, e, secs, n=n, size=sz, at=None)
+                 for e in ('ret', 'raise', 'exit0', 'exit3', 'exitstr')
+                 for secs, n, sz in ((6.0, 600, 1000), (12.0, 4000, 150), (25.0, 200, 5000), (40.0, 1000, 700))]
+        long += [scen_log.stall_case(rng, rng.choice(['ret', 'raise', 'exit3']), round(rng.uniform(5.5, 40.0), 1),
+                                     n=rng.choice([300, 600, 2000, 5000]), size=rng.choice([150, 500, 1000, 3000]),
+                                     at=rng.randrange(0, 120)) for _ in range(12)]
+    for i, c in enumerate(long):
+        cases.insert(min(len(cases), i * 16), c)
     return cases
 
 
 def run(chk):
     chk.audit(PROPS)
     cases = build_cases(chk)
-    results = chk.run_cases('scen_log', cases, sched=False, per_case_timeout=200.0)
+    results = chk.run_cases('scen_log', cases, sched=False, per_case_timeout=400.0)
     results = scen_proc.recheck_hangs(chk, 'scen_log', results, scen_log.vol_class)
     chk.account(scen_log, results, 'E4-processes')
     chk.collect_monitors(results, {'C20'}, keyfn)
-    scen_proc.validate_parallel(chk, 'logpipe', scen_log, results, nproc=chk.workers, cost=lambda c: scen_log.n_total(c) ** 2)
+    scen_proc.validate_parallel(chk, 'logpipe', scen_log, results, nproc=chk.workers, cost=lambda c: scen_log.n_total(c) ** 2,
+                                skip=lambda c: scen_log.n_total(c) > 40000)
     if chk.corr_breaks and not chk.violations:
         more = []
         for b in chk.corr_breaks[:8]:
@@ -43,7 +62,7 @@ def run(chk):
                 c['first'] = chk.rng.choice(['join', 'result'])
                 more.append(c)
         more += [scen_log.gen_case(chk.rng, chk.tier) for _ in range(40)]
-        res2 = chk.run_cases('scen_log', more, sched=False, per_case_timeout=200.0)
+        res2 = chk.run_cases('scen_log', more, sched=False, per_case_timeout=400.0)
         chk.account(scen_log, res2, 'E4-processes')
         chk.collect_monitors(res2, {'C20'}, keyfn)
         chk.notes.append(f'correspondence broke on {len(chk.corr_breaks)} cases; escalated search over {len(more)} more cases')
@@ -65,7 +84,7 @@ def run(chk):
         'cases = boundary volumes (0, 1, 2 records ... 2000x100 B, 50x2 kB, 20x64 kB, 3x200 kB; thorough: 20000x100 B, '
         '100x64 kB, 1x1 MB) x ending kind (return, raise, sys.exit 0/3/str), plus random (n, size or mixed sizes, ending, '
         'level pattern, root level, gap before the end, a record from handle_exception after the target ended, first accessor '
-        'join/result, a custom level below DEBUG with parent root level 1), plus the same as a ProcessServlet worker inside a Server and as the worker of a one-process Pool (close+join); each case runs the REAL mpservice Process in a '
+        'join/result, a custom level below DEBUG with parent root level 1), plus a stalled parent (its handler blocks 7 s - thorough: up to 40 s - at a generated record while the child has a backlog beyond the pipe buffer) and bursts (13000-16000 - thorough: 150000 - small records while the parent is stalled at its first record), plus the same as a ProcessServlet worker inside a Server and as the worker of a one-process Pool (close+join); each case runs the REAL mpservice Process in a '
         'fresh interpreter in its own session with a recording handler on the parent\'s root logger; non-trivial = at least two '
         'records emitted and an observation obtained; distinct = distinct (case, summary of the handled sequence)')
     chk.trusted += TRUSTED
